@@ -5,6 +5,8 @@ import numpy as np
 from vf import core
 from vf.ref import defs, dims, names, uexpr
 from vf.gen import c05_history as hist
+from vf.gen import c05_expspell as espell
+from vf.monitors import c05_expspell as espell_mon
 from .common import all_names, chunks, udim
 
 RULE = ("laws as laws on real Unit objects: commutativity/inverse/identity/homomorphism exhaustively over ordered pairs of the 145 "
@@ -19,7 +21,14 @@ RULE = ("laws as laws on real Unit objects: commutativity/inverse/identity/homom
         "objects were built with (independent replay of the table), with the operands checked unchanged afterwards; orders of first "
         "use: old-first, new-first, law-major (both directions), shuffled, a second shuffled pass, and optionally a use phase before "
         "the edits. distinct = (law, operand names) tuples with non-dimensionless operands; history cells = (law, operand kinds "
-        "stale/fresh/explicit/copy/old-same-scale [+twin], order, warm|final)")
+        "stale/fresh/explicit/copy/old-same-scale [+twin], order, warm|final). Exponent-spelling part (vf/gen/c05_expspell.py, "
+        "vf/monitors/c05_expspell.py): every small-denominator rational a/b (|a/b| <= 4; integer, dyadic, terminating-decimal and non-terminating "
+        "values) is handed to Unit.__pow__ in 29 spellings built from a and b alone (int, float, Fraction, Decimal, three string forms, NumPy float16/32/64/"
+        "longdouble and int8..uint64 scalars, 0-d arrays, sympy Rational/Integer/Float, mpmath, a dimensionless quantity) on atomic, prefixed, compound, "
+        "custom-registry and seeded random units; one evaluation is one law (u**p denotes (scale**r, dimension*r) of the reference model with rational "
+        "exponents and equals u**Fraction; (u**p)**q == u**(p*q); u**p * u**-p == 1; (u*v)**p == u**p * v**p; u**p * u**(n-p) == u**n; the unit "
+        "of (k*u)**p / np.power(k*u, p) / array ** p / np.power(array, [p, p]) is that same unit) and, for bare multipliers, u*k, k*u, u/k, k/u "
+        "against k*scale; cells = (law, spelling, value class with denominator class, unit class, sign)")
 ASSUMPTIONS = ("scale homomorphism is judged against products of the library's own atomic base values (read from Unit(sym).base_value)",
                "a Unit object denotes the scale it carries: a unit built before registry.modify()/add()/remove() keeps the scale it was built with, and the laws "
                "are judged on that scale, not on what its expression would mean in the current registry state (so for such units simplify()/as_coeff_unit() are "
@@ -30,7 +39,13 @@ ASSUMPTIONS = ("scale homomorphism is judged against products of the library's o
                "a unit mentioning a symbol that has since been removed from the registry: Unit-level laws are judged as for any other unit; simplify() and the array "
                "multiply/divide rules (which simplify, i.e. must look every symbol up) may refuse with SymbolNotFoundError - noted, not judged",
                "array unit rules (memoised on Unit hash/equality, an anchor of the property) are judged by value * unit scale and dimension of the result only",
-               "a refusal (exception) of a Unit-level law on ordinary multiplicative custom-registry units is a violation in the history part, even if both sides refuse")
+               "a refusal (exception) of a Unit-level law on ordinary multiplicative custom-registry units is a violation in the history part, even if both sides refuse",
+               "exponent spellings: a spelling of a/b in any numeric type denotes the rational a/b (the library's own rule is to take a float for the nearby simple "
+               "fraction); narrow floats (float16, float32) are judged by the same rule and not exempted - where their rounding error defeats the library's snapping "
+               "the keys are listed as findings. A spelling that a door refuses is judged against a control (same door and spelling at the dyadic value 1/2, or 2 for "
+               "integer-only types, on the metre): refused there too = consistent refusal, counted and not judged; accepted there = the refusal is a violation",
+               "exponent spellings through array doors are judged on the unit of the result only (the numbers are C06's subject); bare multipliers are judged on "
+               "value * unit scale against the number the spelling actually holds (tolerance 8 eps of the spelling's float type)")
 MIN_EVALS = 5000
 TIMEOUT = 900
 OFFSET = {"degC", "degF", "lat", "lon"}
@@ -47,6 +62,7 @@ def batches(tier, seed):
     b += [("refusal", ("refusal", None)), ("hash", ("hash", seed))]
     nh, perh = (8, 6) if tier == "quick" else (32, 10)
     b += [("history/%d" % i, ("history", (seed, i, perh, tier))) for i in range(nh)]
+    b += [(bid, ("expspell", pl)) for bid, pl in espell.batches(tier, seed)]
     return b
 
 
@@ -760,6 +776,8 @@ def worker(batch, rec):
                 rec.sample({"u": str(u), "v": str(v), "w": str(w), "p": str(p), "q": str(q)})
     elif kind == "history":
         history_worker(rec, unyt, res, payload)
+    elif kind == "expspell":
+        espell_mon.run(rec, unyt, payload, lut_resolver)
     elif kind == "refusal":
         others = ["m", "s", "kg", "K", "rad", "degree", "J", "km", "delta_degC"]
         for o in ["degC", "degF", "mdegC", "kdegC", "lat", "lon"]:
@@ -777,6 +795,28 @@ def worker(batch, rec):
             for v in others:
                 uv = Unit(v)
                 law(rec, "commutative-refusal-log", lambda: uo * uv, lambda: uv * uo, (o, v))
+        # units with a zero point: simplify()/as_coeff_unit() and the quantity-times-bare-number rule (which simplifies) must return the same
+        # unit, zero point included (scale, offset and dimension are what equality is decided by)
+        for o in ["degC", "degF", "mdegC", "kdegC", "lat", "lon"]:
+            uo = Unit(o)
+            want = (float(uo.base_value), float(uo.base_offset), udim(uo))
+            forms = (("simplify", lambda: Unit(uo.expr, registry=uo.registry).simplify()),
+                     ("simplify-of-product-with-one", lambda: (uo * NULL).simplify()),
+                     ("as_coeff_unit", lambda: uo.as_coeff_unit()[1]),
+                     ("quantity*bare", lambda: (unyt.unyt_quantity(10.0, uo) * 2).units),
+                     ("bare*array", lambda: (2 * unyt.unyt_array([10.0, 20.0], uo)).units))
+            for fname, thunk in forms:
+                rec.count("offset-unit-forms")
+                try:
+                    got = thunk()
+                except Exception as e:
+                    rec.note(f"offset-unit:{fname}:refused:{type(e).__name__}")
+                    continue
+                have = (float(got.base_value), float(got.base_offset), udim(got))
+                if have != want or not (got == uo) or (got != uo):
+                    rec.violation(f"C05:offset-unit:{fname}:denotes-other-unit", f"{fname} of {o}: (scale, offset, dimension) {want} -> {have}; == original: {got == uo}", (o, fname))
+                else:
+                    rec.ok(("offset-unit", fname, o))
         rec.sample({"refusal": "offset/log units x others, both operand orders"})
     elif kind == "hash":
         r = core.rng(payload, "hash")
@@ -814,6 +854,13 @@ def extra(tier, seed, results):
     deciding += ["history:use-phase:" + o for o in hist.ORDERS]
     deciding += ["history:built:" + x for x in ("string", "compose", "expr", "explicit", "copy", "deepcopy", "string-default", "explicit-default")]
     deciding += ["history:edit:" + e for e in HIST_EDITS if tier != "quick" or e != "remove"]
+    # exponent / multiplier spellings: every law, value class, array door and spelling must have been observed
+    deciding += ["offset-unit-forms", "expspell:cases", "expspell:multiplier-evals"]
+    deciding += ["expspell:law:" + x for x in espell_mon.LAWS]
+    deciding += ["expspell:vclass:" + x for x in espell.VCLASSES]
+    deciding += ["expspell:array-door:" + x for x in espell.ARRAY_DOORS]
+    deciding += ["expspell:tried:" + x for x in espell.SPELLINGS]
+    deciding += ["expspell:returned:" + x for x in espell_mon.MUST_RETURN]
     zero = [k for k in deciding if not c.get(k)]
     if zero:
         raise core.Inconclusive("sub-monitors-saw-nothing:" + ",".join(zero))
